@@ -2838,7 +2838,7 @@ func emitPaths(info *types.Info, stmts []ast.Stmt, in []emitPath, isStream func(
 			p.text += "¤"
 			return
 		}
-		p.text += " ¤ "
+		p.text += " «" + se.Sel.Name + "» "
 	}
 	var stmt func(s ast.Stmt, ps []emitPath) []emitPath
 	block := func(list []ast.Stmt, ps []emitPath) []emitPath {
@@ -3148,4 +3148,121 @@ func E5NameEscape(c *core.Ctx, r *core.Report) {
 	default:
 		r.OK("E5.name-escape", key, c.Pos(esc.Pos()), "through "+core.FuncName(esc))
 	}
+}
+
+// E5PaintFollowsItsSetter: a painting operator runs under the opacity set for its own paint.
+func E5PaintFollowsItsSetter(c *core.Ctx, r *core.Report) {
+	r.Rule("E5.paint-follows-its-setter", "the PDF page writer keeps one opacity for filling and stroking (SetFill and SetStroke both end in SetAlpha, which writes /CA and /ca together). On every path through PDF.RenderPath, the last of SetFill/SetStroke called before a filling operator (f, f*) is SetFill and before a stroking operator (S, s) is SetStroke; the combined operators (B, B*, b, b*) are written only after both and on a path where the two alphas were tested equal. With the stroke state set up before the `f` — mirroring the equal-alpha branch — the fill is painted with the stroke's opacity whenever the two differ")
+	p := c.MustPkg(pdfRel)
+	info := p.TypesInfo
+	fd := core.MustFuncDecl(p, "PDF.RenderPath")
+	r.Func("pdf.PDF.RenderPath")
+	isStream := func(e ast.Expr) bool { return pdfGrammar.isStream(info, e) }
+	paths := emitPaths(info, fd.Body.List, []emitPath{{assume: map[string]bool{}, vars: map[types.Object]string{}}}, isStream)
+	// conditions that establish equal alphas: an equality of two `.A` components, or a boolean local defined by one
+	alphaConds := map[string]bool{}
+	isAlphaEq := func(e ast.Expr) bool {
+		found := false
+		ast.Inspect(e, func(m ast.Node) bool {
+			if be, ok := m.(*ast.BinaryExpr); ok && be.Op == token.EQL {
+				x, okx := core.Unparen(be.X).(*ast.SelectorExpr)
+				y, oky := core.Unparen(be.Y).(*ast.SelectorExpr)
+				if okx && oky && x.Sel.Name == "A" && y.Sel.Name == "A" {
+					found = true
+				}
+			}
+			return true
+		})
+		return found
+	}
+	ast.Inspect(fd.Body, func(m ast.Node) bool {
+		switch x := m.(type) {
+		case *ast.AssignStmt:
+			if len(x.Lhs) == 1 && len(x.Rhs) == 1 && isAlphaEq(x.Rhs[0]) {
+				if id, ok := x.Lhs[0].(*ast.Ident); ok {
+					alphaConds[id.Name] = true
+				}
+			}
+		case *ast.IfStmt:
+			if isAlphaEq(x.Cond) {
+				alphaConds[types.ExprString(core.Unparen(x.Cond))] = true
+			}
+		}
+		return true
+	})
+	type verdict struct {
+		ok  bool
+		msg string
+	}
+	seen := map[string]verdict{}
+	n := 0
+	for _, pth := range paths {
+		last := ""
+		both := map[string]bool{}
+		var conds []string
+		for k, b := range pth.assume {
+			conds = append(conds, fmt.Sprintf("%s=%v", k, b))
+		}
+		sort.Strings(conds)
+		for _, tok := range strings.Fields(pth.text) {
+			switch tok {
+			case "«SetFill»", "«SetStroke»":
+				last = strings.Trim(tok, "«»")
+				both[last] = true
+				continue
+			}
+			want := ""
+			switch tok {
+			case "f", "f*":
+				want = "SetFill"
+			case "S", "s":
+				want = "SetStroke"
+			case "B", "B*", "b", "b*":
+				want = "both"
+			default:
+				continue
+			}
+			n++
+			key := fmt.Sprintf("pdf.PDF.RenderPath|operator %s after %s", tok, last)
+			switch {
+			case want == "both":
+				equalAlpha := false
+				for k, b := range pth.assume {
+					if b && alphaConds[k] {
+						equalAlpha = true
+					}
+				}
+				if both["SetFill"] && both["SetStroke"] && equalAlpha {
+					if _, dup := seen[key]; !dup {
+						seen[key] = verdict{true, ""}
+					}
+				} else {
+					seen[key] = verdict{false, fmt.Sprintf("the combined operator `%s` is written on a path (%s) on which SetFill and SetStroke were not both called or the two alphas were not tested equal: one of the two paints runs under the other's opacity", tok, strings.Join(conds, ", "))}
+				}
+				both = map[string]bool{}
+			case last != want:
+				seen[key] = verdict{false, fmt.Sprintf("on a path (%s) the operator `%s` is written after %s was the last to set the shared opacity (want %s): the page writer has one alpha for both paints, so this paint is drawn with the other one's opacity whenever they differ", strings.Join(conds, ", "), tok, map[bool]string{true: "nothing", false: last}[last == ""], want)}
+				both = map[string]bool{}
+			default:
+				if _, dup := seen[key]; !dup {
+					seen[key] = verdict{true, ""}
+				}
+				both = map[string]bool{}
+			}
+		}
+	}
+	var keys []string
+	for k := range seen {
+		keys = append(keys, k)
+	}
+	sort.Strings(keys)
+	for _, k := range keys {
+		if seen[k].ok {
+			r.OK("E5.paint-follows-its-setter", k, c.Pos(fd.Pos()), "")
+		} else {
+			r.Fail("E5.paint-follows-its-setter", k, c.Pos(fd.Pos()), seen[k].msg)
+		}
+	}
+	r.Count("E5.paint-follows-its-setter", n)
+	r.Floor("E5.paint-follows-its-setter", 10)
 }
